@@ -15,6 +15,10 @@ THEOREMS = ['Tbox.C13.' + t for t in [
     'C13_sessions_independent', 'C13_teardown_drops_queued',
     'C13_telnet_resumable', 'C13_telnet_in_bounds', 'C13_telnet_legacy_counterexample',
     'C13_split_unbalanced', 'C13_split_words', 'C13_split_quoted', 'C13_split_roundtrip',
+    'C13_delete_in_handler',
+    'C13_sock_stream_conserved', 'C13_sock_close_rule',
+    'C13_wrap_agrees_below_width', 'C13_screen_in_window_partial', 'C13_screen_in_window_counterexample',
+    'C13_strsplit_single', 'C13_hexstr_width',
 ]]
 
 SOURCES = [
@@ -474,14 +478,178 @@ FEEDS = [b'pwd\r\n', b'\x7f\x7f\x7f\x7f\x7f\x7fpwd\r\n', b'x', b'!!\r\n', b'!0\r
          b'ls;!!\r\n', b'"', b' y\r\nz']
 
 
-def rand_script(rng):
+def rand_script(rng, pdel=0.04):
     acts = []
     for _ in range(rng.choice([1, 1, 2, 2, 3, 5])):
         r = rng.random()
-        if r < 0.65: acts.append('f:' + hx(rng.choice(FEEDS)))
+        if r < pdel: acts.append('d')
+        elif r < 0.65: acts.append('f:' + hx(rng.choice(FEEDS)))
         elif r < 0.9: acts.append('s:' + hx(rng.choice(['hi', '[s]\r\n', ''])))
         else: acts.append('e')
     return acts
+
+
+def rand_answers(rng, nbytes):
+    """the kernel's answers to the readv calls of one read event: sizes of the successful calls, then how it ends"""
+    r = rng.random()
+    if r < 0.25: return '-'
+    items = []
+    if r < 0.9:
+        left = max(nbytes, 1)
+        for _ in range(rng.randrange(1, 5)):
+            c = rng.choice([1, 1, 2, 3, 5, 8, 64, 1023, 1024, left, max(1, left - 1), left + 1])
+            c = max(1, min(1024, c)); items.append(str(c)); left = max(1, left - c)
+    t = rng.random()
+    if t < 0.45: items.append('a')
+    elif t < 0.55: items.append('z')
+    elif t < 0.63: items.append('r')
+    elif t < 0.70: items.append('i')
+    elif t < 0.74: items.append('o')
+    return ','.join(items) if items else '-'
+
+
+def gen_sock(rng):
+    """telnet / raw-TCP sessions driven through the REAL socket read path: the client writes, the service's read event runs with
+    scripted kernel answers (segment sizes, EAGAIN, end of file, ECONNRESET, EINTR, EIO at every point), bytes left in the
+    kernel queue are picked up by later events or by the real epoll pass, clients close with bytes queued, accept() fails"""
+    ops = ['mkfunc ' + ' '.join(rand_script(rng, 0.0)), 'mkfunc', 'mount 0 1 ' + hx('q'), 'mount 0 2 ' + hx('p')]
+    ops = [o.strip() for o in ops]
+    live = []
+    for _ in range(rng.randrange(2, 9)):
+        if not live or rng.random() < 0.15:
+            k = rng.choice([4, 4, 5, 6, 6])
+            if rng.random() < 0.2: ops.append('xconnf %d %d' % (k, rng.randrange(1, 5)))
+            ops.append('xconn %d' % k)
+            if k not in live: live.append(k)
+            if k < 6 and rng.random() < 0.6: ops.append('xsock %d fffd01 -' % k)
+            continue
+        k = rng.choice(live)
+        line = rng.choice(['p a', 'q', 'pwd', 'ls', 'help', 'history', '!!', '!0', 'exit', 'p;q', 'abc\x1b[D\x1b[Dx\x7f', 'tree', 'p \x1b[1~z\x1b[4~', ''])
+        data = line.encode('latin1') + rng.choice(ENTERS)
+        if k < 6 and rng.random() < 0.3:
+            data = rng.choice([b'\xff\xfd\x01', b'\xff\xfe\x03', b'\xff\xf1', b'\xff\xfa\x1f\x00\x50\x00\x18\xff\xf0', b'\xff\xfa\x1f\x01\xff\xf0', b'\xff\xff', b'\xff\xfa\x18']) + data
+        for sg in (cut(rng, data) if rng.random() < 0.4 else [data]):
+            ops.append('xsock %d %s %s' % (k, hx(sg), rand_answers(rng, len(sg))))
+        r = rng.random()
+        if r < 0.25: ops.append('xsock %d - -' % k)          # the rest of the queue
+        elif r < 0.40: ops.append('pass')                    # ... or the real epoll pass finds it
+        elif r < 0.50: ops += ['xclose %d' % k, 'pass'] + (['pass'] if rng.random() < 0.7 else []) + ['xconn %d' % k]
+        elif r < 0.56: ops.append('xrecv %d %s' % (k, hx(rng.choice([b'pwd\r\n', b'\xff', b'\xff\xfa\x1f\x00']))))     # both entry points on one connection
+        elif r < 0.62: ops.append('wfault %d %d' % (k, rng.choice([0, 1, 2, 3])))
+        elif r < 0.66: ops += ['xdisc %d' % k, 'xconn %d' % k]
+        elif r < 0.70: ops.append(rng.choice(['teardown', 'passdown'])); live = []
+    ops += ['pass']
+    for k in live: ops.append('xsock %d %s -' % (k, hx('history\r\n')))
+    ops += ['pass', 'pass']
+    return ops
+
+
+def gen_delete(rng):
+    """Terminal::deleteSession reached from a command handler on the session it runs in (a handler holding the Terminal, the stdio
+    shell's Stdio::stop()), alone and mixed with feeds, sends, endSession, exit, on every kind of connection; then more input,
+    loop passes, a successor session in the same pooled context"""
+    scr = lambda: ' '.join(rng.choice([['d'], ['d', 's:' + hx('bye')], ['s:' + hx('x'), 'd', 'f:' + hx('pwd\r\n')], ['d', 'e'], ['e', 'd'], ['d', 'd'],
+                                       ['f:' + hx('exit\r\n'), 'd'], ['d', 'f:' + hx('q\r\n')], ['f:' + hx('p'), 'd']]))
+    ops = ['mkfunc ' + scr(), 'mkfunc ' + scr(), 'mkfunc', 'mount 0 1 ' + hx('p'), 'mount 0 2 ' + hx('q'), 'mount 0 3 ' + hx('n')]
+    where = rng.choice(['d', 'd', 't', 't', 'r', 's', 'k'])
+    send = {'d': lambda b: 'recv ' + hx(b), 't': lambda b: 'xrecv 4 ' + hx(b), 'r': lambda b: 'xrecv 6 ' + hx(b), 's': lambda b: 'srecv ' + hx(b),
+            'k': lambda b: 'xsock 5 %s %s' % (hx(b), rand_answers(rng, len(b)))}[where]
+    opn = {'d': 'open %d' % rng.choice([0, 1, 1]), 't': 'xconn 4', 'r': 'xconn 6', 's': 'sstart', 'k': 'xconn 5'}[where]
+    ops += [opn, 'depth %d' % rng.choice([1, 1, 2, 3])]
+    for i in range(rng.choice([0, 1, 19])): ops.append(send(('n %d\r\n' % i).encode()))
+    for _ in range(rng.randrange(1, 4)):
+        line = rng.choice(['p', 'q', 'p;pwd', 'n;p;n', 'p;exit', 'exit;p', 'p;!!', '!!', 'q;q', 'p \x1b[D\x1b[D', 'n'])
+        ops.append(send(line.encode('latin1') + rng.choice(ENTERS) + rng.choice([b'', b'', b'pwd\r\n', b'x'])))
+        r = rng.random()
+        if r < 0.3: ops.append('pass')
+        elif r < 0.4 and where == 'd': ops += ['open %d' % rng.choice([0, 1]), send(b'n again\r\n')]
+        elif r < 0.5 and where in 'trk': ops += ['xdisc %d' % {'t': 4, 'r': 6, 'k': 5}[where], opn]
+        elif r < 0.55 and where == 's': ops.append('sstop')
+    ops += ['pass', send(b'history\r\n'), rng.choice(['pass', 'teardown', 'passdown'])]
+    if where == 'd': ops += ['open 1', send(b'history\r\n')]
+    return ops
+
+
+def gen_screen(rng):
+    """what the client SEES: an echoing session in a window of 8..40 (or 80) columns; lines shorter than, exactly as long as and
+    longer than the window (wrapping), edited in the middle, history walks over long and short lines"""
+    w = rng.choice([8, 10, 12, 16, 20, 40, 80])
+    ops = ['scrw %d' % w, 'mkfunc', 'mount 0 1 ' + hx('p')]
+    where = rng.choice(['d', 'd', 't', 's'])
+    send = {'d': lambda b: 'recv ' + hx(b), 't': lambda b: 'xrecv 4 ' + hx(b), 's': lambda b: 'srecv ' + hx(b)}[where]
+    ops += {'d': ['open 1'], 't': ['xconn 4', 'xrecv 4 fffd01'], 's': ['sstart']}[where]
+    for _ in range(rng.randrange(2, 7)):
+        ln = rng.choice([0, 1, 3, w - 4, w - 3, w - 2, w - 1, w, w + 1, 2 * w, 2 * w + 3])
+        text = bytes(rng.choice(b'abcdefghij XYZ01"') for _ in range(max(0, ln)))
+        keys = [text]
+        for _ in range(rng.randrange(0, 6)):
+            keys.append(rng.choice([KEYS['left'][0] * rng.randrange(1, w + 3), KEYS['right'][0] * rng.randrange(1, 5), KEYS['home'][0], KEYS['end'][0],
+                                    rng.choice(KEYS['bs']) * rng.randrange(1, 4), KEYS['del'][0], b'Q', b'zz', KEYS['up'][0], KEYS['down'][0], KEYS['up'][0] * 2]))
+        for kx in keys:
+            if kx: ops.append(send(kx))
+        ops.append(send(rng.choice(ENTERS)))
+        if rng.random() < 0.15: ops.append('scrw %d' % rng.choice([8, 12, 80]))
+    return ops
+
+
+BUILTINS = ['ls', 'cd', 'pwd', 'help', 'history', 'exit', 'quit', 'tree']
+
+
+def gen_state(rng):
+    """inputs EQUAL TO or DERIVED FROM what the session has cached: the line just stored typed again / recalled with Up and sent /
+    its prefix; !n addressing the entry that its own store pushes out of the 20-line window; nodes named like built-ins;
+    the prompt string pasted as a command; the same option word / window size / width set again"""
+    ops = ['mkfunc', 'mkdir', 'mkfunc', 'mount 0 1 ' + hx('p')]
+    for nm in rng.sample(BUILTINS, rng.randrange(1, 5)): ops.append('mount 0 %d %s' % (rng.choice([2, 3]), hx(nm)))
+    ops.append('mount 2 3 ' + hx(rng.choice(BUILTINS)))
+    opt = rng.choice([0, 1, 1])
+    ops.append('open %d' % opt)
+    rc = lambda t: 'recv ' + hx(t)
+    n = rng.choice([0, 3, 18, 19, 20, 22])
+    for i in range(n): ops.append(rc('p %d\r\n' % i))
+    for _ in range(rng.randrange(3, 9)):
+        r = rng.random()
+        if r < 0.15:      # the same line twice, then !! and !-1 and !-2 (equal entries next to each other)
+            l = rng.choice(['p same', 'pwd', 'ls', 'p 0', 'p %d' % max(0, n - 1)])
+            ops += [rc(l + '\r\n'), rc(l + '\r\n'), rc(rng.choice(['!!', '!-1', '!-2', '!19', '!0']) + '\r\n')]
+        elif r < 0.30:    # recall with Up (1..3 times), send unchanged / with a prefix removed / extended
+            ops.append(rc(b'\x1b[A' * rng.randrange(1, 4) + rng.choice([b'', b'\x7f', b' z', b'\x1b[1~\x1b[3~', b'\x1b[B']) + b'\r\n'))
+        elif r < 0.50:    # !n for the entry its own store pushes out (oldest of a full history), for its neighbours, repeated
+            t = rng.choice(['!0', '!0', '!1', '!19', '!-20', '!-19', '!-1', '!20'])
+            ops += [rc(t + '\r\n')] * rng.choice([1, 2, 3]) + ([rc('history\r\n')] if rng.random() < 0.5 else [])
+        elif r < 0.65:    # built-in names that are also node names
+            b = rng.choice(BUILTINS)
+            ops.append(rc(rng.choice(['%s', './%s', '/%s', 'cd %s', 'ls %s', 'help %s', 'tree %s', '%s %s', '"%s"', "%s;./%s"]).replace('%s', b) + '\r\n'))
+        elif r < 0.75:    # the prompt string / what the shell itself printed, pasted back
+            ops.append(rc(rng.choice(['# ', '# # ', '# pwd', 'Bye!', '<1>', '/', ' 0  p 0', 'Welcome']) + '\r\n'))
+        elif r < 0.85:    # the same option word / window size again
+            ops += ['opt %d' % opt, 'opt %d' % opt, 'winsz 80 24', 'winsz 80 24']
+        else:
+            ops.append(rc(rand_line(rng, ['p', 'ls', 'cd']) + '\r\n'))
+        if rng.random() < 0.1: ops.append('pass')
+    ops += [rc('history\r\n'), rc('pwd\r\n')]
+    return ops
+
+
+def gen_strings(rng):
+    """util::string::Split and RawDataToHexStr called directly: separators of 1-3 bytes (also overlapping, at both ends, adjacent),
+    data lengths 0..3 and around 4/8/16/64-byte boundaries (each at every alignment 0..7 against an ASan redzone), length
+    arguments on both sides of 2^16"""
+    ops = []
+    for _ in range(rng.randrange(3, 10)):
+        if rng.random() < 0.5:
+            sep = rng.choice([b';', b'/', b'ab', b'aa', b'aba', b'\x00', b';;'])
+            alpha = sep + b'axb;'
+            src = bytes(rng.choice(alpha) for _ in range(rng.choice([0, 1, 2, 3, 5, 9, 17])))
+            if rng.random() < 0.3: src = sep * rng.randrange(0, 4) + src + sep * rng.randrange(0, 3)
+            ops.append('ssplit %s %s' % (hx(sep), hx(src)))
+        else:
+            ln = rng.choice([0, 1, 2, 3, 4, 5, 7, 8, 9, 15, 16, 17, 63, 64, 65])
+            data = bytes(rng.randrange(256) for _ in range(ln))
+            n = rng.choice([ln, ln, max(0, ln - 1), 0, 65536 + ln, 65536, 131072 + min(ln, 1), 65536 * 3 + ln])
+            if n % 65536 > ln: n = ln
+            ops.append('hexstr %s %d %d %s' % (hx(data), n, rng.randrange(2), hx(rng.choice([b'', b'', b' ', b':', b', ', b'\x00']))))
+    return ops
 
 
 def gen_nested(rng):
@@ -522,7 +690,11 @@ def gen(rng, tier):
            'tdisc x', 'rsend', 'winsz 70000 1', 'umount 3 61', 'recv', 'sel 4', 'sel 1', 'recv 00', 'xconn 3', 'xconn 7', 'xrecv 4 00',
            'xconn 4', 'xconn 4', 'xdisc 5', 'srecv 00', 'sstop', 'split', 'split 0', 'sstart', 'sstart', 'teardown', 'xrecv 4 00',
            'wfault 4 1', 'xclose 4', 'wfault 3 1', 'xconn 5', 'wfault 5 4', 'wfault 5 3', 'xclose 5', 'xclose 5', 'wfault 5 0', 'sstart', 'pass', 'xconn 5',
-           'depth 4', 'depth 1', 'mkfunc x', 'mkfunc f:0g', 'mkfunc e e e e e e e', 'mkfunc s:- e f:61']
+           'depth 4', 'depth 1', 'mkfunc x', 'mkfunc f:0g', 'mkfunc e e e e e e e', 'mkfunc s:- e f:61', 'mkfunc d d', 'mkfunc dd',
+           'xsock 4 00 x', 'xsock 4 00 0', 'xsock 4 00 1025', 'xsock 3 00 -', 'xsock 5 00 1,,2', 'xsock 5 00 a,1', 'xsock 5 00 1,1,1,1,1,1,1,1,1',
+           'xsock 5 00', 'xconnf 4 0', 'xconnf 4 5', 'xconnf 3 1', 'xconnf 5 2', 'xconnf 6 3', 'xsock 5 70770d0a 2,a', 'xsock 5 - z', 'xsock 5 00 -', 'pass',
+           'ssplit - 00', 'ssplit 3b', 'ssplit 3b -', 'hexstr 00 5 0 -', 'hexstr 00 1 2 -', 'hexstr - 0 0 -', 'hexstr 00 65536 1 2c',
+           'scrw 3', 'scrw 1001', 'scrw x', 'scrw 20']
     # the repaired defects, minimal (also in corpus/C13)
     yield ['open 0', 'recv ' + hx('exit;exit\r\n'), 'pass']
     yield ['open 0', 'recv ' + hx('!!\r\n')]
@@ -544,6 +716,12 @@ def gen(rng, tier):
     # re-entrant use: '!!' re-run of a shorter line while a handler feeds a key; a stored '!!' line
     yield ['depth 0', 'mkfunc f:' + hx('x'), 'mount 0 1 ' + hx('p'), 'open 0', 'recv ' + hx('p\r\n'), 'depth 1', 'recv ' + hx('!!     \r\n')]
     yield ['depth 1', 'mkfunc f:' + hx('\r\n!!'), 'mount 0 1 ' + hx('p'), 'open 0', 'recv ' + hx('p\r\n'), 'recv ' + hx('history\r\n'), 'recv ' + hx('!!\r\n')]
+    # patch 11: a handler deletes the session it runs in (direct, telnet through the real read path, the stdio shell's stop())
+    yield ['mkfunc d', 'mount 0 1 ' + hx('p'), 'open 1', 'recv ' + hx('p;pwd\r\nls'), 'recv ' + hx('\r\n'), 'open 0', 'recv ' + hx('history\r\n')]
+    yield ['mkfunc d f:' + hx('pwd\r\n') + ' e', 'mount 0 1 ' + hx('p'), 'xconn 4', 'xsock 4 ' + hx('p;exit\r\n') + ' 3,a', 'xsock 4 - -', 'pass', 'xrecv 4 ' + hx('pwd\r\n'), 'xdisc 4', 'pass']
+    yield ['mkfunc d', 'mount 0 1 ' + hx('p'), 'sstart', 'srecv ' + hx('p\r\n'), 'srecv ' + hx('p\r\n'), 'sstop', 'pass']
+    # the window is narrower than prompt + line: Home, then a character (C13_screen_in_window_counterexample on the real shell)
+    yield ['scrw 8', 'open 1', 'recv ' + hx('abcdefgh'), 'recv ' + hx(b'\x1b[1~'), 'recv ' + hx('X'), 'recv ' + hx('\r\n')]
     # a sub-negotiation whose payload length is on both sides of 2^16 (onRecvSub passes it to a uint16_t parameter of the
     # trace helper): nothing may be read or consumed differently
     for ln in ([65532, 65536] if tier == 'quick' else [65531, 65532, 65533, 65535, 65536, 65537, 70000, 131072]):
@@ -575,6 +753,16 @@ def gen(rng, tier):
         yield gen_reuse(rng)
     for _ in range(n // 2):
         yield gen_faults(rng)
+    for _ in range(n):
+        yield gen_sock(rng)
+    for _ in range(n // 2):
+        yield gen_delete(rng)
+    for _ in range(n // 2):
+        yield gen_screen(rng)
+    for _ in range(n // 2):
+        yield gen_state(rng)
+    for _ in range(n // 4):
+        yield gen_strings(rng)
 
 
 def nontrivial(ops, model_lines):
@@ -592,6 +780,8 @@ def nontrivial(ops, model_lines):
         return 1          # at least two sessions produced output
     if any(l.startswith('P split ok') and int(l.split()[3]) >= 2 for l in model_lines) or any(l == 'P split fail' for l in model_lines):
         return 1
+    if any(l.startswith('M sys') and 'readv=' in l for l in model_lines) or any(o.startswith('hexstr') for o in ops):
+        return 1
     return None
 
 
@@ -599,7 +789,7 @@ RULE = ('op files from props/C13/plugin.py gen(): shell sessions over random nod
         'history walks, history references with boundary/huge/negative/malformed integers, exit sequences, loop passes), '
         'hostile byte streams, telnet/raw-TCP byte streams in random segmentations, several interleaved sessions on one terminal '
         '(4 recording connections, 2 telnet clients, 1 raw-TCP client, the stdio service; connects/disconnects/reconnects, exit, '
-        'teardown without draining, teardown inside the loop pass that runs the exit tasks; slots re-opened after close/exit so that pooled '
+        'teardown without draining, teardown inside the loop pass that runs the exit tasks; telnet/raw-TCP input through the real socket read path with scripted readv answers (segment sizes, EAGAIN, EOF, ECONNRESET, EINTR, EIO), bytes left queued for the real epoll pass, accept failures; handlers deleting the session they run in; windows of 8-80 columns with lines longer than the window; history entries equal to the line typed, !n pushing itself out, nodes named like built-ins, the prompt pasted back; util::string::Split / RawDataToHexStr called directly at every alignment; slots re-opened after close/exit so that pooled '
         'session contexts and cabinet cells are reused while stale exit / disconnect tasks are queued; the kernel answering write() on a '
         'telnet/raw-TCP client socket with short counts, EAGAIN or EPIPE; clients closing their end unannounced with output pending), command handlers that act on their own session while the command executes (send, feed keys/lines incl. Enter, '
         '!!, !n, exit into the same session to nesting depth 0-3, end the session; histories near the 20-line limit), directed built-in command cases over cyclic trees and deleted nodes, direct SplitCmdline calls; non-trivial = '
@@ -609,12 +799,22 @@ RULE = ('op files from props/C13/plugin.py gen(): shell sessions over random nod
 TRUSTED = ['model lean/TboxModel/C13/Model.lean is hand-written from modules/terminal/impl/*.cpp (incl. service/telnetd, tcp_rpc, stdio), '
            'util/split_cmdline.cpp, util/string.cpp; tied by differential runs (ASan+UBSan build of the working tree)',
            'lean/TboxModel/C13/Gen.lean (key scanner table) is dumped from the running implementation on every run; the dump code is in props/C13/harness.cpp',
-           'telnet / raw-TCP clients are socketpairs whose server end is handed to the real network::TcpServer as a TcpConnection: what '
-           'Telnetd/TcpRpc send (telnet negotiation included) and whom they disconnect goes through the real TcpServer/TcpConnection/socket '
-           'path and is read back from the client end; RECEIVED bytes are handed to Impl::onTcpReceived directly in an exactly sized Buffer '
-           '(no loop pass needed, overreads visible to ASan), a client closing is TcpConnection::onSocketClosed(); TcpAcceptor and the '
-           'socket read path are not exercised. The stdio service runs on the real StdioStream/BufferedFd with fds 0/1 redirected to pipes '
-           '(termios calls fail harmlessly on a pipe)',
+           'telnet / raw-TCP clients connect over Unix sockets to real TcpAcceptor objects of the harness whose read event is delivered by a '
+           'direct call (accept(2) interposed: success or EAGAIN/EMFILE/ECONNABORTED/EINTR with the pending connection gone); the accepted '
+           'TcpConnection is handed to the service\'s real TcpServer as its own acceptor does; the services themselves run their real '
+           'initialize()+start() on sockets nobody connects to. What Telnetd/TcpRpc send and whom they disconnect goes through the real '
+           'TcpServer/TcpConnection/BufferedFd/socket path and is read back from the client end. RECEIVED bytes take two routes: op xrecv hands '
+           'them to Impl::onTcpReceived in an exactly sized Buffer (overreads visible to ASan); op xsock writes them into the client socket and '
+           'runs ONE read event of the real BufferedFd::onReadCallback (direct call, or the real epoll pass for what stays queued) with readv(2)/'
+           'read(2) interposed: sizes of the successful calls, EAGAIN, end of file, ECONNRESET, EINTR, EIO at any call index chosen by the op '
+           'file; the unconsumed rest lives in the connection\'s receive buffer for both routes. close/shutdown/setsockopt/accept/readv on the '
+           'service\'s descriptors are recorded as M sys lines which the model predicts (deferred close of a finished connection included). '
+           'The stdio service runs on the real StdioStream/BufferedFd with fds 0/1 redirected to pipes (termios calls fail harmlessly on a pipe)',
+           'every byte a client receives is also fed to an independently written VT100-style emulator in the harness (grid of rows, right margin, '
+           'immediate autowrap, BS/CR/LF, ESC [ C / ESC [ D); its current row + cursor are printed as P scr lines and compared with the Lean '
+           'terminal ScrW run by the driver on the bytes the model sends (C13_wrap_agrees_below_width ties ScrW to the Scr of the screen theorem); '
+           'M ed lines compare the real SessionContext (cursor, history index, line) with the model after every input op',
+           'write faults (wfault 1/2) are scheduled between loop passes only: while a pass runs the kernel takes every write in full',
            'output lines of one op are grouped by connection: sessions on the recording connection are compared in chronological order '
            '(e.g. the order in which a loop pass ends them); different socket/pipe clients have no mutual order',
            'string constants (lean/TboxModel/C13/Msgs.lean) are transcribed by hand; a changed message text shows up as a P-divergence',
@@ -624,12 +824,17 @@ TRUSTED = ['model lean/TboxModel/C13/Model.lean is hand-written from modules/ter
            'the reference terminal of C13_screen_matches_editor (Spec.lean Scr: one unbounded row, BS/CR/LF, ESC [ C, ESC [ D) is a model of a '
            'VT100-style terminal without wrapping; the theorem bounds the columns used so that the no-wrap assumption is a hypothesis on the window width']
 ASSUMPTIONS = ['the host program never deletes the root node',
-               'command handlers act on their own session only through Session::send/endSession and Terminal::onRecvString (scripted in the '
-               'harness), nest to a bounded depth, do not modify the node tree and do not delete the session',
+               'command handlers act on their own session only through Session::send/endSession, Terminal::onRecvString and '
+               'Terminal::deleteSession / Stdio::stop() (scripted in the harness), nest to a bounded depth, do not modify the node tree and do '
+               'not destroy the Terminal or a service object',
                'isprint/islower behave as in the C locale (the scanner table is dumped under the harness locale)',
                'stdio segments are at most 512 bytes (one read per loop pass); pipe writes of the service never block',
                'a client that closed its end unannounced is noticed in the next loop pass (not while the stdio service is running in the harness: kept apart)',
-               'C13_screen_matches_editor: echo mode on, window wider than prompt + longest line (no wrapping), terminal as modelled by Scr',
+               'C13_screen_matches_editor / C13_screen_in_window_partial: echo mode on, window wider than prompt + longest line; beyond the margin '
+               'the screen does NOT show the editor (C13_screen_in_window_counterexample, replayed on the real shell: corpus 22); terminal as '
+               'modelled by Scr / ScrW (immediate autowrap, no reverse wrap)',
+               'passdown is used only while no client has unread bytes queued; read events of several sockets in one pass are modelled in slot order '
+               '(different clients have no observable mutual order)',
                'memory safety below index logic is observed by ASan/UBSan on the implementation only']
 LEVEL_TEXT = ('Lean 4 theorems over a hand-written model of the terminal shell (line editor refines a zipper reference editor for every key '
               'sequence; one prompt per Enter; history = last 20 stored lines; !n/!-n/!! address exactly the specified entry for every '
@@ -638,8 +843,8 @@ LEVEL_TEXT = ('Lean 4 theorems over a hand-written model of the terminal shell (
               'contract) plus the key scanner table dumped from the running code and checked by decide; model tied to the code on every run by '
               'differential execution (ASan+UBSan) through recording connections, the real telnet/raw-TCP/stdio services and direct calls')
 LEVEL_NOTE = ('trusted: Lean kernel, hand-written model + differential tie (coverage bounded by the generator, measured in evidence); the model '
-              'describes the tree with patches/C13-01..10 applied - on a tree without 10 the check reports the use-after-free of a '
-              'disconnect task that outlives its Telnetd/TcpRpc')
+              'describes the tree with patches/C13-01..11 applied - on a tree without 11 the check reports the crash of a command handler '
+              'through which Terminal::deleteSession is called on its own session (corpus 19, 20)')
 TECHNIQUE = 'Lean 4 refinement/invariant proofs over an executable model + generated scanner table + model/implementation correspondence check'
 DESIGN_REF = 'DESIGN.md §6 C13'
 
